@@ -205,6 +205,8 @@ func c10Drivers() []concParams {
 		{Name: "3-writers", Cfg: "roomy/bytewise", Clients: [][]string{{"put:a"}, {"put:b"}, {"put:a"}}, QB: 3, TB: 4, Expect: "noerr", SQ: 1, ST: 1},
 		{Name: "3-writers-2ops", Cfg: "roomy/bytewise", Clients: [][]string{{"put:a", "put:b"}, {"put:b", "w:+a,+b"}, {"del:a"}}, QB: 2, TB: 3, Expect: "noerr"},
 		{Name: "overflow-handoff", Cfg: "wide/bytewise", Clients: [][]string{{"put:a"}, {"putL:b"}, {"put:a"}}, QB: 2, TB: 3, Expect: "noerr", SQ: 1, ST: 1},
+		// one writer opts out of merging per call (WriteOptions.NoWriteMerge) among writers that merge
+		{Name: "per-write-no-merge", Cfg: "roomy/bytewise", Clients: [][]string{{"Nput:a", "put:b"}, {"put:b"}, {"put:a", "Nw:+a,-b"}}, QB: 2, TB: 3, Expect: "noerr"},
 		{Name: "no-merge", Cfg: "roomy/bytewise", NoMerge: true, Clients: [][]string{{"put:a"}, {"put:b"}, {"put:a"}}, QB: 3, TB: 4, Expect: "noerr", SQ: 1, ST: 1},
 		// a storage fault in the middle of the protocol: the group's journal write or sync fails,
 		// or the buffer rotation after a group that filled the buffer fails
